@@ -375,16 +375,17 @@ class AnsiString:
             # Ignore - nothing to apply
             return
 
+        # Validate the settings before touching the table so that an invalid setting leaves this object unchanged
+        if not settings:
+            ansi_settings = None
+        else:
+            ansi_settings = _AnsiSettingPoint._scrub_ansi_settings(settings)
+
         if start not in self._fmts:
             self._fmts[start] = _AnsiSettingPoint()
 
         if end not in self._fmts:
             self._fmts[end] = _AnsiSettingPoint()
-
-        if not settings:
-            ansi_settings = None
-        else:
-            ansi_settings = _AnsiSettingPoint._scrub_ansi_settings(settings)
 
         removed_settings = []
         for idx, settings_point, current_settings in _AnsiSettingsIterator(self._fmts):
